@@ -110,7 +110,23 @@ def do_run(text, agg, capture_stdout=True, preset=None, method="collect"):
 
     install_read_hook()
     _READS["n"] = 0
-    c, cap = env.new_csvpath(["collect", "print"])
+    c, cap = env.new_csvpath(["collect", "print"], print_default=True)  # (as a caller gets it: the standard-out printer first)
+    # a printer that is not standard out although it derives from the standard-out printer class (the library's LogPrinter)
+    import logging
+    from csvpath.util.printer import LogPrinter
+
+    class _Sink(logging.Handler):
+        def __init__(self):
+            super().__init__()
+            self.msgs = []
+
+        def emit(self, record):
+            self.msgs.append(record.getMessage())
+
+    lg = logging.Logger("vfy-c15")
+    sink = _Sink()
+    lg.addHandler(sink)
+    c.add_printer(LogPrinter(lg))
     for attr, val in (preset or {}).items():
         setattr(c, attr, val)
     with env.quiet_stdout() as q, hooks.recording(agg) as rec:
@@ -137,6 +153,7 @@ def do_run(text, agg, capture_stdout=True, preset=None, method="collect"):
         "exc": exc,
         "rec": rec,
         "printed": list(cap.lines),
+        "logged": list(sink.msgs),
         "stdout": q.buf.getvalue(),
         "records_read": _READS["n"],
         "trace": [(ev["pln"], ev["considered"], bool(ev["ret"]), diffrun.norm_vars(ev["vars"]), ev["valid"], ev["stopped"], ev["match"], ev["scan"]) for ev in rec.lines],
@@ -244,6 +261,9 @@ def run_case(case, agg):
     if run["printed"] != base["printed"]:
         w["printed"] = [base["printed"][:3], run["printed"][:3]]
         return "print-mode-changes-printouts", w
+    if run["logged"] != base["logged"]:
+        w["log_printer"] = [base["logged"][:3], run["logged"][:3]]
+        return "print-mode-changes-what-a-log-printer-receives", w
     out_lines = run["stdout"].splitlines()
     if modes["print-mode"] == "no-default":
         if run["stdout"].strip():
